@@ -153,20 +153,24 @@ struct JSONUtils {
                                     continue;
                                 }
 
-                                // Surrogate
-                                if ((length - offset) > SizeT{5}) {
-                                    code = (code ^ 0xD800U) << 10U;
-                                    offset += SizeT{2};
+                                // High surrogate: pairs with the \u escape that follows it, if one does.
+                                if (((length - offset) > SizeT{5}) && (content[offset] == JSONotation::BSlashChar) &&
+                                    ((content[offset + SizeT{1}] == JSONotation::U_Char) ||
+                                     (content[offset + SizeT{1}] == JSONotation::CU_Char))) {
+                                    const SizeT32 low =
+                                        Digit::HexStringToNumber<SizeT32>((content + offset + SizeT{2}), SizeT{4});
 
-                                    code += Digit::HexStringToNumber<SizeT32>((content + offset), SizeT{4}) & 0x3FFU;
-                                    code += 0x10000U;
-
+                                    code = (((code ^ 0xD800U) << 10U) + (low & 0x3FFU) + 0x10000U);
                                     Unicode::ToUTF<Char_T>(code, stream);
-
-                                    offset += SizeT{4};
+                                    offset += SizeT{6};
                                     offset2 = offset;
                                     continue;
                                 }
+
+                                // A high surrogate that nothing follows is kept as it is, like a lone low one; the units
+                                // behind it (the closing quote among them) are not part of it.
+                                Unicode::ToUTF<Char_T>(code, stream);
+                                continue;
                             }
 
                             return 0;
